@@ -5,7 +5,7 @@ PY ?= /venv/bin/python
 VERIF_REPO ?= /repo
 export VERIF_REPO
 
-COQSRC := $(filter-out coq/Extract.v,$(wildcard coq/*.v)) coq/Tables.v coq/Grammars.v
+COQSRC := $(filter-out coq/Extract.v,$(wildcard coq/*.v)) coq/Tables.v coq/Grammars.v coq/GrammarsCalc.v
 COQSRC := $(sort $(COQSRC))
 COQVO := $(COQSRC:.v=.vo)
 PROPSRC := $(wildcard coq/props/*.v)
